@@ -20,7 +20,7 @@ def _next_timer(world):
     return nxt
 
 
-def run_timed(cfg_a, cfg_p, script, horizon_ms, seed=0, only=None, silent_after_init=False):
+def run_timed(cfg_a, cfg_p, script, horizon_ms, seed=0, only=None, silent_after_init=False, prelude=b''):
     ''' script: list of (time_ms, op, end, arg) sorted by time; ops: send, term, query. '''
     world = World(cfg_a, cfg_p, only=only, auto_deliver=(only is None))
     ends = world.real_ends
@@ -39,6 +39,10 @@ def run_timed(cfg_a, cfg_p, script, horizon_ms, seed=0, only=None, silent_after_
         world.run_fair(timers=False)
         feed(codec.enc_sess_init(keepalive=cfg_p.keepalive if only == 'A' else cfg_a.keepalive,
                                  seg_mru=1000, xfer_mru=2 ** 40, node_id='dtn://silent/'))
+        if prelude:
+            # the last thing the peer says before it goes silent (a transfer it never finishes, half a message)
+            world.run_fair(timers=False)
+            feed(prelude)
     world.run_fair(timers=False)
     pending = sorted(script, key=lambda it: it[0])
     nsent = {'A': 0, 'P': 0}
@@ -135,9 +139,18 @@ def executions(tier, seed):
             cfg = EndCfg('dtn://solo/', keepalive=ka, idle=idle)
             other = EndCfg('dtn://silent/', keepalive=ka)
             horizon = idle * 4000 + 3000
-            traces.append(run_timed(cfg if only == 'A' else other, cfg if only == 'P' else other, [], horizon,
-                                    seed=seed, only=only))
-            metas.append({'kind': 'silent-peer', 'victim': only, 'keepalive': ka, 'idle': idle, 'horizon_ms': horizon})
+            # the peer falls silent with nothing outstanding / with the victim's transfer never acknowledged /
+            # in the middle of a transfer of its own / in the middle of a message
+            variants = [('quiet', [], b''),
+                        ('unacked', [(1, 'send', only, 40)], b''),
+                        ('half-received', [], codec.enc_segment(7, b'abc', codec.SEG_START, [codec.ext_total_length(9)])),
+                        ('half-message', [], codec.enc_segment(8, b'abcdef', codec.SEG_START,
+                                                               [codec.ext_total_length(6)])[:-3])]
+            for (vname, script, prelude) in (variants if (i % 2 == 0 or tier == 'thorough') else variants[:2]):
+                traces.append(run_timed(cfg if only == 'A' else other, cfg if only == 'P' else other, script, horizon,
+                                        seed=seed, only=only, prelude=prelude))
+                metas.append({'kind': 'silent-peer', 'victim': only, 'keepalive': ka, 'idle': idle,
+                              'horizon_ms': horizon, 'outstanding': vname})
     nad = 12 if tier == 'quick' else 200
     for i in range(nad):
         mru = rnd.choice([1, 500, 9000, 10240, 20000, 10 ** 6])
